@@ -212,6 +212,58 @@ def run(ctx):
                               "div_f64 panics on a non-finite result; no dominating non-zero guard" % show(d, 60), s.loc)
     r2.floor(2, "division sites in TransferInfo::init")
 
+    # ---- R3 last-transfer timestamps --------------------------------------------------------------
+    r3 = ctx.rule("C14.R3", "the timestamps the carousel gap is measured from are written only where a transfer starts / ends: "
+                            "last_transfer_start_time = Some(now) in TransferInfo::init, last_transfer_end_time = Some(now) in "
+                            "TransferInfo::done; the only other writer, FileDesc::reset_last_transfer (both = None, an explicit "
+                            "trigger), is called only from Fdt::trigger_transfer_at on a path where the object is not being "
+                            "transferred (a reset in mid-transfer would let done() restore only the end time and restart at once)",
+                  "WWF+WMC+DOM")
+    allowed = {"last_transfer_start_time": {TI + "::init": "Option::Some{0: now}", FD + "::reset_last_transfer": "Option::None{}"},
+               "last_transfer_end_time": {TI + "::done": "Option::Some{0: now}", FD + "::reset_last_transfer": "Option::None{}"}}
+    for fld, tab in sorted(allowed.items()):
+        for a in field_accesses(prog, TI, fld):
+            if a["kind"] not in ("assign", "assign_sub", "borrow_mut"):
+                continue
+            caller = a["func"].root().path
+            key = "%s writes TransferInfo.%s" % ("::".join(caller.split("::")[-2:]), fld)
+            if caller in tab and a["kind"] == "assign" and show(a["value"]) == tab[caller]:
+                r3.ok(key, "= %s" % tab[caller], loc(a["sp"]))
+            else:
+                r3.violation(key, "%s %s = %s; allowed writers: %s" % (caller, a["kind"], show(a["value"], 60), sorted(tab.items())), loc(a["sp"]))
+    wmc(r3, prog, r"^sender::filedesc::FileDesc::reset_last_transfer$", [r"^sender::fdt::Fdt::trigger_transfer_at$"])
+    tg = prog.fn("sender::fdt::Fdt::trigger_transfer_at")
+    ctx.analysed(tg.path)
+    tfl = Flow(tg.body)
+    for s in call_sites(tg, lambda p, c: p == FD + "::reset_last_transfer"):
+        key = "trigger_transfer_at: reset only when not transferring"
+        fs = tfl.facts_at(s.bb)
+        if any(a[0] == "true" and not t and any(c[0] == "call" and c[1].endswith("FileDesc::is_transferring") for c in walk(a[1])) for (a, t) in fs):
+            r3.ok(key, "dominated by !file.is_transferring()", s.loc)
+        else:
+            r3.violation(key, "reset_last_transfer can run while the object is being transferred (no dominating !is_transferring()): "
+                              "the running transfer's done() restores only the end time, should_transfer_now sees a missing start "
+                              "time and the carousel object restarts without its delay", s.loc)
+    # is_transferring reads the flag that init sets and done clears
+    it = prog.fn(FD + "::is_transferring")
+    rets = ret_assign_blocks(it.body, lambda e: True)
+    if rets and all(re.search(r"\.transferring$", show(Slicer(it.body).expand(e), 200)) for _, e in rets):
+        r3.ok("is_transferring returns TransferInfo.transferring", "", loc(it.sp))
+    else:
+        r3.violation("is_transferring returns TransferInfo.transferring", "returns %s" % [show(e, 60) for _, e in rets], loc(it.sp))
+    for a in field_accesses(prog, TI, "transferring"):
+        if a["kind"] not in ("assign", "assign_sub", "borrow_mut"):
+            continue
+        caller = a["func"].root().path
+        key = "%s writes TransferInfo.transferring" % "::".join(caller.split("::")[-2:])
+        want = {TI + "::init": "True", TI + "::done": "False"}
+        if want.get(caller) == show(a["value"]):
+            r3.ok(key, "= %s" % show(a["value"]), loc(a["sp"]))
+        else:
+            r3.violation(key, "transferring = %s in %s" % (show(a["value"], 40), caller), loc(a["sp"]))
+    r3.floor(8, "timestamp discipline facts")
+
+
 
 def _orient(t, label, positive_leaf_regex):
     for k, lab in t.seen_sign.items():
